@@ -566,3 +566,88 @@ fn c10_t_rw_cancel_orders() {
   kani::cover!(!cancel_first, "cancel after the wake was consumed");
   std::mem::forget(f2);
 }
+
+/// C10 (guard-coexistence matrix, try_ forms never block): symbolic program of try_read / try_write /
+/// guard drops on one rwlock: a write guard never coexists with any other guard, read guards coexist,
+/// try_ succeeds exactly when the matrix allows it (no waiter is queued in these programs).
+macro_rules! rw_try_matrix {
+  ($name:ident, $n:expr, $unw:expr) => {
+    #[kani::proof]
+    #[kani::unwind($unw)]
+    fn $name() {
+      let l = HybridRwLock::new(0u8);
+      let mut r0 = None;
+      let mut r1 = None;
+      let mut w = None;
+      let mut step = 0;
+      while step < $n {
+        let op: u8 = kani::any();
+        kani::assume(op < 5);
+        let readers = r0.is_some() as u8 + r1.is_some() as u8;
+        if op == 0 {
+          if r0.is_none() {
+            r0 = l.try_read();
+            assert!(r0.is_some() == w.is_none(), "C10: try_read must succeed exactly when no write guard exists");
+          } else if r1.is_none() {
+            r1 = l.try_read();
+            assert!(r1.is_some() == w.is_none(), "C10: try_read must succeed exactly when no write guard exists");
+          }
+        } else if op == 1 {
+          if w.is_none() {
+            w = l.try_write();
+            assert!(w.is_some() == (readers == 0), "C10: try_write must succeed exactly when no other guard exists");
+          } else {
+            assert!(l.try_write().is_none(), "C10: two write guards coexist");
+          }
+        } else if op == 2 {
+          r0 = None;
+        } else if op == 3 {
+          r1 = None;
+        } else {
+          if let Some(g) = w.as_mut() {
+            **g += 1;
+          }
+          w = None;
+        }
+        assert!(!(w.is_some() && (r0.is_some() || r1.is_some())), "C10: a write guard coexists with a read guard");
+        step += 1;
+      }
+      kani::cover!(r0.is_some() && r1.is_some(), "two read guards coexist");
+      kani::cover!(w.is_some(), "write guard held at the end");
+      std::mem::forget(r0);
+      std::mem::forget(r1);
+      std::mem::forget(w);
+    }
+  };
+}
+rw_try_matrix!(c10_t_rw_try_matrix_n3, 3, 4);
+rw_try_matrix!(c10_t_rw_try_matrix_n5, 5, 6);
+
+/// Same for the mutex: try_lock succeeds exactly when no guard exists.
+#[kani::proof]
+#[kani::unwind(6)]
+fn c10_q_mutex_try_matrix_n5() {
+  let m = HybridMutex::new(0u8);
+  let mut g = None;
+  let mut step = 0;
+  let mut locks = 0u8;
+  while step < 5 {
+    if kani::any() {
+      if g.is_none() {
+        g = m.try_lock();
+        assert!(g.is_some(), "C10: try_lock failed on a free mutex");
+        locks += 1;
+      } else {
+        assert!(m.try_lock().is_none(), "C10: two mutex guards coexist");
+      }
+    } else {
+      if let Some(x) = g.as_mut() {
+        **x += 1;
+      }
+      g = None;
+    }
+    step += 1;
+  }
+  kani::cover!(locks >= 2, "locked twice");
+  std::mem::forget(g);
+}
